@@ -86,6 +86,10 @@ def ev_schedules(entries, truncate=None):
     return dict(kind="S", payload=payload.hex(), ref=ref, desc=f"schedules n={len(entries)}")
 
 
+def ev_uid():
+    return dict(kind="U", ref=True, desc="UID response (product info)")
+
+
 def ev_avail(n):
     return dict(kind="A", n=n, desc=f"thermostats_available={n}")
 
@@ -104,6 +108,56 @@ def rand_bits(rng):
 
 # ------------------------------------------------------------------ history generators
 def gen_histories(rng, tier, tables):
+    order = random.Random(rng.random())
+    for label, product, evs in gen_histories_uid_first(rng, tier, tables):
+        if label == "random" and order.random() < 0.3:
+            k = order.randrange(0, len(evs) + 1)      # the UID response arrives late (or never)
+            yield "random-late-uid", product, evs[:k] + [ev_uid()] + evs[k:]
+        else:
+            yield label, product, [ev_uid()] + evs
+    yield from gen_arrival_order(rng, tier, tables)
+
+
+def gen_arrival_order(rng, tier, tables):
+    """parameter responses of every kind handled BEFORE the UID response (several of them), then the UID, sets, then repeats"""
+    quick = tier == "quick"
+    t = tables["tables"]
+    sizes = [r["size"] for r in t["thermostat"]]
+    nsched = len(tables["schedules"])
+    for rep in range(6 if quick else 60):
+        for product, pname in ((pd.PRODUCT_P, "P"), (pd.PRODUCT_I, "I")):
+            L, LM = len(t["ecomax" + pname]), len(t["mixer" + pname])
+            nm = rng.randrange(1, 4)
+
+            def eco():
+                start = rng.choice([0, 0, rng.randrange(0, L), max(0, L - 3)])
+                return ev_ecomax(start, [rand_triple(rng, 1, 0.15) for _ in range(rng.randrange(1, min(40, 255 - start)))])
+
+            def mix():
+                start = rng.choice([0, 0, rng.randrange(0, LM)])
+                cnt = rng.randrange(1, LM + 3 - start)
+                return ev_mixer(start, [[rand_triple(rng, 1, 0.15) for _ in range(cnt)] for _ in range(nm)])
+
+            def thermo():
+                return ev_thermostat(0, 2, 5, rand_triple(rng, 1, 0.3), [[rand_triple(rng, sizes[k], 0.0) for k in range(5)] for _ in range(2)], sizes)
+
+            def sched():
+                idxs = rng.sample(range(nsched), 3)
+                return ev_schedules([(i, rng.randrange(2), rand_triple(rng, 1, 0.2), rand_bits(rng)) for i in idxs])
+
+            before = [f() for f in rng.sample([eco, mix, eco, mix, thermo, sched], rng.randrange(2, 6))]
+            if rep == 0:
+                # the canonical case: full mixer and ecoMAX blocks first, UID late, everything repeated afterwards
+                before = [ev_mixer(0, [[rand_triple(rng, 1, 0.0) for _ in range(LM)] for _ in range(2)]),
+                          ev_ecomax(0, [rand_triple(rng, 1, 0.0) for _ in range(min(L, 200))])]
+            evs = [ev_avail(2)] + before + [ev_sets(6), ev_uid(), ev_sets(25)]
+            after = [ev_mixer(0, [[rand_triple(rng, 1, 0.0) for _ in range(LM)] for _ in range(2)]) if rep == 0 else mix(), eco(), ev_uid()]
+            rng.shuffle(after)
+            evs += after + [ev_sets(25)]
+            yield "arrival", product, evs
+
+
+def gen_histories_uid_first(rng, tier, tables):
     quick = tier == "quick"
     t = tables["tables"]
     sizes = [r["size"] for r in t["thermostat"]]
@@ -262,7 +316,6 @@ async def run_history(product, evs, seed):
     """returns (model event words, outs, snapshot after each response, set records)"""
     rng = random.Random(seed)
     w = World()
-    await w.uid(product)
     words, outs, sets, snaps, concrete = [], [], [], [], []
     tavail = 0
     sched_state = {}      # schedule index -> bitmap hex as last reported (None: unknown after a malformed response)
@@ -296,7 +349,12 @@ async def run_history(product, evs, seed):
         k = ev["kind"]
         if k != "SETS":
             concrete.append(ev)
-        if k == "SET":
+        if k == "U":
+            before = w.snapshot()
+            await w.uid(product)
+            words.append("U")
+            snaps.append((ev, before, w.snapshot(), None, tavail))
+        elif k == "SET":
             await do_set(ev["label"], ev["name"], ev["v"])
         elif k in "EMTS":
             payload = bytes.fromhex(ev["payload"])
@@ -367,12 +425,20 @@ def judge(product, evs, snaps, sets, tables):
     sched_bits = {}
     sched_vals = {}
     valid = True
+    known = False       # product info (UID response) has arrived
+    parked = []         # items of ecoMAX / mixer responses handled before the UID: applied, in arrival order, when it arrives
     for ev, before, after, err, tavail in snaps:
-        if ev["ref"] is None or (ev["kind"] == "T" and tavail not in (0, ev["ref"]["T"])):
+        if ev["kind"] != "U" and (ev["ref"] is None or (ev["kind"] == "T" and tavail not in (0, ev["ref"]["T"]))):
             valid = False   # a malformed payload: what was decoded from where is not defined by the layout; stop judging
             break
         items = []          # (label, kind, pos, triple, extra)
-        if ev["kind"] == "E":
+        if ev["kind"] == "U":
+            if known:
+                continue
+            known = True
+            items, parked = parked, []
+            ev = dict(ev, desc="UID after %d parked items" % len(items))
+        elif ev["kind"] == "E":
             items = [("ecomax", "ecomax", p, tr, {}) for p, tr in ev["ref"]]
         elif ev["kind"] == "M":
             items = [(f"mixer{m}", "mixer", p, tr, dict(dev=m)) for m, its in ev["ref"].items() for p, tr in its]
@@ -387,6 +453,16 @@ def judge(product, evs, snaps, sets, tables):
                 items.append(("ecomax", "schedule", 2 * i, (sw, 0, 1), {}))
                 if par is not None:
                     items.append(("ecomax", "schedule", 2 * i + 1, par, {}))
+        if ev["kind"] in "EM" and not known:
+            # S4 (arrival order): the handlers that wait for product info create nothing before it arrives
+            parked += items
+            for label in set(before) | set(after):
+                for name in set(before.get(label, {})) | set(after.get(label, {})):
+                    if before.get(label, {}).get(name) != after.get(label, {}).get(name):
+                        bad.append(("S4 a parameter was created / changed by a response handled before the UID response (product type unknown)",
+                                    dict(event=ev["desc"], device=label, name=name, before=before.get(label, {}).get(name),
+                                         after=after.get(label, {}).get(name)), None))
+            continue
         touched = set()
         last = {}
         for label, kind, pos, tr, extra in items:
@@ -538,6 +614,7 @@ def run(ctx):
                 evs.append(ev_avail(int(rest)))
             elif k == "Z":
                 evs.append(ev_state(int(rest)))
+        evs = [ev_uid()] + evs
         evs.append(ev_sets())
         cases.append(("corpus:" + fn, pd.PRODUCT_P if prod == "P" else pd.PRODUCT_I, evs))
     cases.extend(gen_histories(rng, ctx["tier"], tables))
